@@ -92,11 +92,17 @@ def strategy(date, ctx):
     units, sums = derived_names(date)
     rule_units = rule_unit_variants(date)
 
+    import inspect as _inspect
+
+    # nodes that depend on parameters only (scalars, broadcast to a column): a class of their own
+    _, functions_ = env.policy_env(date)
+    scalar_nodes = [n for n in nodes if n in functions_ and all(a.endswith("_params") for a in _inspect.signature(functions_[n]).parameters)]
+
     @st.composite
     def s(draw):
         pop = draw(popgen.populations(date, **GEN))
         k = draw(st.sampled_from([1, 1, 2, 3, 6]))
-        pool = st.one_of(st.sampled_from(nodes), st.sampled_from(nodes),
+        pool = st.one_of(st.sampled_from(nodes), st.sampled_from(nodes), st.sampled_from(scalar_nodes or nodes),
                          st.sampled_from(units) if units else st.sampled_from(nodes),
                          st.sampled_from(sums) if sums else st.sampled_from(nodes))
         S = sorted(set(draw(st.lists(pool, min_size=k, max_size=k))))
